@@ -3,7 +3,7 @@
 # seeded/<Cnn>-<next>/ and run the property's quick check against a scratch copy of /repo's sources with the patch applied (never /repo).  Prints one summary line.
 set -u
 ID=$1; N=$2; RND=$3; P=${ID%%r*}
-SD=/tmp/seed_$ID/change$N; WT=/tmp/wt_$ID
+SD=/tmp/seed_$ID/change$N; WT=${SEED_WT:-/tmp/wt_$ID}   # SEED_WT: one shared scratch worktree for the confirmation (the agents' own ones are removed as soon as they are done)
 [ -f "$SD/patch.diff" ] || { echo "SEED $ID/$N: nothing delivered"; exit 0; }
 RES=$(bash /verif/tools/seed_verify.sh "$WT" "$SD" 2>&1 | grep "^RESULT\|PATCH DOES NOT APPLY" | tail -1)
 case "$RES" in
